@@ -114,6 +114,9 @@ func ptrEscape(s string) string {
 }
 
 func (p c18) Run(c *fw.Case) {
+	if c.Idx%6 == 5 {
+		failedCalls(c) // call history: failed calls before the case must leave nothing behind
+	}
 	r := c.R
 	draft := gen.D2020
 	if c.Idx%3 == 2 {
@@ -269,6 +272,10 @@ func (p c18) Run(c *fw.Case) {
 			return n
 		})
 		dtext := gen.Text(decorated)
+		if r.IntN(3) == 0 {
+			// the same decorated document in another textual layout: member order and insignificant whitespace are free (RFC 8259)
+			dtext = gen.TextShuffled(r, decorated, r.IntN(4) > 0)
+		}
 		rs1, err, ok := compileDoc(c, dtext, nil)
 		if !ok {
 			return
